@@ -588,6 +588,15 @@ def checked_conv(it, a, w, signed):
         return some(with_tags(r, a.tags))
     if any(bv.t_is_const(b) == 1 for b in high):
         return none()
+    # "does it fit?" is the comparison (high bits == 0): harnesses that decide such comparisons by a case split (the equal case fixes the
+    # variables, the other carries no knowledge) decide it here too
+    uc = getattr(it.h, "unknown_compare", None)
+    if uc is not None and not signed and all(b is not bv.TOP for b in high):
+        r = uc(it, "Eq", Int(len(high), False, bits=list(high)), Int(len(high), False, val=0))
+        if r is True:
+            return some(with_tags(bv.cast(a, w, signed), a.tags))
+        if r is False:
+            return none()
     raise Undecided("checked integer conversion of %r to %d bits may or may not fit" % (a, w))
 
 
@@ -923,6 +932,16 @@ def iter_model(it, fn, name, args, dest_ty, term, caller, depth):
                     other = IterV("slice", (other, 0, sq[2]))
                 elif isinstance(other, (VecV, Arr)):
                     other = IterV("owned", (Ref(Cell(other, "zip-owned")), 0, len(other.elems)))
+                if isinstance(other, Adt) and not other.name.endswith(("ops::Range", "ops::RangeInclusive", "ops::RangeFrom")):
+                    # a user-defined iterator struct as the second stream: it is driven by its own `next`
+                    nb2 = None
+                    for b_ in it.facts.fns.values():
+                        if b_["path"].endswith("::next") and b_.get("impl_trait", "").endswith("Iterator") and b_.get("impl_self", "").split("<")[0] == other.name:
+                            nb2 = b_
+                            break
+                    if nb2 is None or it.mono:
+                        return NotImplemented
+                    other = IterV("user", (Cell(other, "user-iter"), nb2))
                 if not isinstance(other, (IterV, Adt)):
                     return NotImplemented
                 return IterV("zip", (inner, other))
@@ -963,6 +982,19 @@ def iter_model(it, fn, name, args, dest_ty, term, caller, depth):
                 # an opaque set that remembers what went in (harnesses answer membership; concrete integer sets are answered by models2)
                 return Opaque(dty, {"collected-set"}, {"items": out})
             return DequeV(out) if is_deque else VecV(out)
+        if name == "unzip" and len(args) == 1 and isinstance(args[0], IterV) and (dest_ty or "").startswith("(std::vec::Vec<"):
+            cur = args[0]
+            xs, ys = [], []
+            for _ in range(100000):
+                cur, item = iter_next(it, cur, term, caller, depth)
+                if item.variant == 0:
+                    break
+                pr = item.fields[0]
+                if not (isinstance(pr, Tup) and len(pr.fields) == 2):
+                    raise Unsupported("unzip over %r" % (pr,))
+                xs.append(pr.fields[0])
+                ys.append(pr.fields[1])
+            return Tup([VecV(xs), VecV(ys)])
         if name in ("fold",) and len(args) == 3 and (isinstance(args[0], IterV) or (isinstance(args[0], Adt) and args[0].name.endswith("ops::Range"))):
             cur = args[0]
             acc = args[1]
